@@ -49,7 +49,7 @@ def run_traces(ctx, module, constants, traces, init="TInit", next_="TNext",
     write_cfg(cfg, constants, init, next_, invariants)
     r = tlc.run(module, cfg, env={"TRACE_FILE": tf}, workers=workers, coverage=False, timeout=timeout,
                 heap=heap, dfs=dfs)
-    if r.rc != 0 or r.violated:
+    if not r.ok:
         raise tlc.MachineryError("%s: TLC failed rc=%s violated=%s\n%s" %
                                  (what, r.rc, r.violated, "\n".join(r.out.splitlines()[-40:])))
     ctx.add_tlc(r, what)
@@ -94,7 +94,7 @@ def run_records(ctx, module, constants, recs, init="RInit", next_="RNext", invar
     write_cfg(cfg, constants, init, next_, invariants)
     r = tlc.run(module, cfg, env={"TRACE_FILE": tf}, workers=workers, coverage=False, timeout=timeout,
                 heap=heap)
-    if r.rc != 0 or r.violated:
+    if not r.ok:
         raise tlc.MachineryError("%s: TLC failed rc=%s violated=%s\n%s" %
                                  (what, r.rc, r.violated, "\n".join(r.out.splitlines()[-40:])))
     if r.distinct < len(recs):
